@@ -53,6 +53,7 @@ import "github.com/plgd-dev/go-coap/v3/message"
 //@   ensures [rejects] err != nil && !errors.Is(err, message.ErrOptionsTooSmall) && udpHdrOK(data) ==> exists K int :: {rawStart(udpOpts(data), K)} prefixOK(udpOpts(data), K) && !terminal(udpOpts(data), rawStart(udpOpts(data), K)) && !rawOK(udpOpts(data), K)
 //@   ensures [too-small] errors.Is(err, message.ErrOptionsTooSmall) ==> udpHdrOK(data) && exists K int :: {rawStart(udpOpts(data), K)} prefixOK(udpOpts(data), K) && rawOK(udpOpts(data), K) && cap(old(m.Options)) == len(old(m.Options)) + nKept(udpOpts(data), message.CoapOptionDefs, K)
 //@   ensures [too-small-full] errors.Is(err, message.ErrOptionsTooSmall) ==> len(m.Options) == cap(m.Options) && cap(m.Options) == cap(old(m.Options))
+//@   ensures [sorted] err == nil && len(old(m.Options)) == 0 ==> sortedOpts(m.Options)
 //@   ensures [fields] err == nil ==> m.Type == (data[0] / 16) % 4 && m.Code == data[1] && m.MessageID == 256*data[2] + data[3] && m.Token == ite(data[0] % 16 == 0, nil, data[4 : 4 + data[0] % 16])
 //@   ensures [unchanged-on-error] err != nil ==> m.Payload == old(m.Payload) && m.Code == old(m.Code) && m.Token == old(m.Token) && m.Type == old(m.Type) && m.MessageID == old(m.MessageID)
 //
